@@ -160,8 +160,12 @@ impl ApplicationState {
             let ty_ = type2id.get_index(position).unwrap().0.to_owned();
             // The field name may be a reserved keyword.
             // If that's the case, we append a `_` to the field name.
-            let name =
-                syn::parse_str::<syn::Ident>(&name).unwrap_or_else(|_| format_ident!("{}_", name));
+            // `gen` is reserved starting from the 2024 edition, the edition of the generated crate,
+            // but `syn` still parses it as a plain identifier.
+            let name = match syn::parse_str::<syn::Ident>(&name) {
+                Ok(ident) if name != "gen" => ident,
+                _ => format_ident!("{}_", name),
+            };
             name_map.insert(name, ty_);
         }
 
